@@ -7,6 +7,7 @@ import PP.Driver.OpsC18
 import PP.Driver.OpsC17
 import PP.Driver.OpsC20
 import PP.Driver.OpsC16
+import PP.Driver.OpsC01
 /-
 Request handlers of the model driver.
 -/
@@ -170,6 +171,9 @@ def handle (j : Json) : Except String Json := do
           | none =>
             match PP.OpsC16.handle op j with
             | some r => r
-            | none => throw s!"unknown op {op}"
+            | none =>
+              match PP.OpsC01.handle op j with
+              | some r => r
+              | none => throw s!"unknown op {op}"
 
 end PP.Ops
